@@ -504,7 +504,12 @@ func c01ProductFamilies(thorough bool) []c01Product {
 		{"{{else}}", ""}, {"<b title=\"none", "<b title=\"", ""}, {"{{end}}"}, {"\">x</b>", "x\">", ">"},
 		{"{{define \"ot\"}}<b title=\"" + S + "{{end}}{{define \"qi\"}}" + S + "\" id=\"{{end}}"},
 	}}
-	return append([]c01Product{tag, namesplit, loops}, raws...)
+	// a conditional between "=" and the attribute value: the branch may or may not start the value
+	valuestart := c01Product{"valuestart", [][]string{
+		{"<a title=", "<a title =", "<a title= "}, {"{{if $.C}}", "{{range $.L}}", "{{with $.W}}"}, {"x", "x ", "\"x\"", "'x' ", ""}, {"{{end}}", "{{else}}y{{end}}", "{{else}}{{end}}", "{{else}}\"y\"{{end}}"},
+		{" class=\"" + S + "\">", " class='" + S + "'>", "class=\"" + S + "\">", ">" + S, " " + S + ">"},
+	}}
+	return append([]c01Product{tag, namesplit, loops, valuestart}, raws...)
 }
 
 // c01StateFamily groups tokenizer states by the construct the tokenizer is inside of.
